@@ -144,11 +144,12 @@ fn main() {
             assumptions: &[
                 "sampled schedules, not exhaustive; <= 12 input items, <= 3 locations, cluster size 2",
                 "TCP.fail_stop() is modelled as one FIFO wire per (sender, receiver) pair: no loss, no duplication, arbitrary delay, arbitrary interleaving across pairs; crashes are not injected for C28",
+                "TCP.lossy_delayed_forever() (safe API, output typed NoOrder) is modelled as a wire on which any in-flight message may overtake any other; every message is eventually delivered in the fair drain phase (indefinite delay = the message is still in flight when observation of intermediate states ends)",
                 "idle = every location's last tick reported no pending work and no message is in flight or undelivered; the drain phase after the last seeded step is fair (round-robin, immediate delivery), bound 4*(items+hops)+8 rounds",
                 "final value of singletons/optionals/keyed singletons = what the per-tick snapshot shim emits in the last tick after idleness",
                 "only the embedded production back end is run (deploy/trybuild glue shares emit_core but is not executed)",
             ],
-            required_probes: &["empty_tick", "multi_item_batch_and_several_ticks", "net_delay", "two_messages_in_flight", "composed_flow_produced_output"],
+            required_probes: &["empty_tick", "multi_item_batch_and_several_ticks", "net_delay", "net_reorder", "two_messages_in_flight", "composed_flow_produced_output"],
         },
         Prop {
             id: "C29",
